@@ -1,6 +1,7 @@
 import FR.Generated.Pure
 import FR.Cmd.Env
 /-! # Bridge: the helpers translated from the source equal the model's -/
+set_option linter.unusedSimpArgs false
 namespace FR.Bridge
 open FR
 
@@ -16,21 +17,25 @@ theorem fixRangeString_eq : Generated.fixRangeString = FR.fixRangeString := by
   repeat' split
   all_goals first | rfl | (exfalso; omega) | (apply Prod.ext <;> simp only <;> omega)
 
+/-- The proof does not follow the shape of the generated text: it splits on "has a repeat group" and on the three
+possible orders of `n` and the number of fixed arguments and lets `simp`/`omega` evaluate both sides, so an equivalent
+rewriting of `check_arity` keeps the bridge. -/
 theorem checkArity_eq (s : Sig) (n : Nat) :
     Generated.checkArity n s.fixed.length (!s.rep.isEmpty) = s.checkArity n := by
   unfold Generated.checkArity Sig.checkArity
-  by_cases h : n = s.fixed.length
-  · simp [h]
-  · have h' : (n : Int) ≠ (s.fixed.length : Int) := by omega
-    simp only [ne_eq, h', not_false_eq_true, ↓reduceIte, bne_iff_ne, h]
-    by_cases hr : s.rep.isEmpty = true
-    · simp [hr]
-    · have hr' : s.rep.isEmpty = false := by simpa using hr
-      simp only [hr', Bool.not_false, Bool.true_eq_false, or_false, Bool.or_false]
-      by_cases hlt : n < s.fixed.length
-      · have : (n : Int) - (s.fixed.length : Int) < 0 := by omega
-        simp [this, hlt]
-      · have : ¬ ((n : Int) - (s.fixed.length : Int) < 0) := by omega
-        simp [this, hlt]
+  rcases Nat.lt_trichotomy n s.fixed.length with hlt | heq | hgt <;> cases hr : s.rep.isEmpty
+  all_goals first
+    | (have h1 : (n : Int) - (s.fixed.length : Int) < 0 := by omega
+       have h2 : ¬ ((n : Int) - (s.fixed.length : Int) > 0) := by omega
+       have h3 : (n : Int) ≠ (s.fixed.length : Int) := by omega
+       have h4 : n ≠ s.fixed.length := by omega
+       simp [h1, h2, h3, h4, hlt] <;> omega)
+    | (subst heq; simp; done)
+    | (have h1 : ¬ ((n : Int) - (s.fixed.length : Int) < 0) := by omega
+       have h2 : (n : Int) - (s.fixed.length : Int) > 0 := by omega
+       have h3 : (n : Int) ≠ (s.fixed.length : Int) := by omega
+       have h4 : n ≠ s.fixed.length := by omega
+       have h5 : ¬ (n < s.fixed.length) := by omega
+       simp [h1, h2, h3, h4, h5, hgt] <;> omega)
 
 end FR.Bridge
